@@ -119,6 +119,11 @@ def render(n: Tuple, mode: str = "min") -> str:
     if t == "macro":
         a = n[1]
         return f"{wrap(a, level(a) < MEMBER or _needs_recv_parens(a))}.{n[2]}({n[3]}, {render(n[4], mode)})"
+    if t == "msg":
+        a = n[1]
+        return f"{wrap(a, level(a) < MEMBER or _needs_recv_parens(a))}{{" + ", ".join(f"{k}: {render(v, mode)}" for k, v in n[2]) + "}"
+    if t == "dotcall":
+        return f".{n[1]}({', '.join(render(x, mode) for x in n[2])})"
     if t == "list":
         return "[" + ", ".join(render(x, mode) for x in n[1]) + "]"
     if t == "map":
@@ -142,8 +147,10 @@ def children(n: Tuple) -> List[Tuple]:
         return [n[1], n[2]]
     if t in ("select", "has"):
         return [n[1]]
-    if t == "call":
+    if t in ("call", "dotcall"):
         return list(n[2])
+    if t == "msg":
+        return [n[1]] + [v for _, v in n[2]]
     if t == "method":
         return [n[1]] + list(n[3])
     if t == "macro":
